@@ -162,7 +162,11 @@ def frame_c18_bounded_callset(f, base):
     alloc = set(base["c18_allocating"])
     exc = base.get("c18_allowed_exceptions", {})
     bad, unknown = [], []
-    for fn, allowed in base["c18_bounded_post_construction"].items():
+    # the poll functions of the unbounded family never allocate either (their only allocation is the new group made by push;
+    # `.push` inside them re-appends a retained group / parks an output in a heap whose capacity was reserved)
+    both = dict(base["c18_bounded_post_construction"])
+    both.update(base.get("c18_unbounded_poll", {}))
+    for fn, allowed in both.items():
         cur = set(f["calls"].get(fn, [])) | set("!" + m for m in f["macros"].get(fn, []))
         for c in sorted(cur - set(allowed)):
             last = c.split("::")[-1]
